@@ -74,7 +74,9 @@ def _init():
 
 def _param_src(p):
     s = p['n']
-    if p.get('ann'):
+    if p.get('annraw'):            # any annotation (type hint, arbitrary string) on a PREPENDED parameter
+        s += f": {p['annraw']}"
+    elif p.get('ann'):
         s += f": {p['ann']!r}"
     d = p['d']
     if d[0] == 'none':
